@@ -14,7 +14,7 @@ import (
 func init() {
 	register(Property{
 		ID: "C20",
-		Explanation: "Decided statically: A5 every index/slice expression in the inflection function is bounded (length guard on the submatch slice; the irregular replacement is read through a comma-ok map lookup; non-emptiness of the matched word and of every replacement follows from the checked shape of the irregular pattern and of the constant rule tables, R3); R1 the rebuilt word is made of the match's own captures and the table value, never of a fixed offset of the whole input; R2 functions reachable from Pluralize/Singularize write no shared state except through sync.Map/sync.OnceValue, and the rule tables are only written by functions called (transitively) from init; determinism: no schedule-dependent order source in pkg/inflector. R3 pattern shape: two capture groups, first `.*`, a word boundary between them, second anchored at end of text, case-insensitive; every IrregularItem has a non-empty lower-case ASCII Word and a Replacement starting with the same letter. R4 the irregular attempt precedes the uninflected test (their word lists overlap, so the other order makes a word inflect differently on its own than behind a prefix); R3 also demands the dot-all flag, so a line break in the prefix is kept. NOT decided: linguistic correctness of the tables; that the irregular word is inflected exactly as on its own for every input (value level).",
+		Explanation: "Decided statically: A5 every index/slice expression in the inflection function is bounded (length guard on the submatch slice; the irregular replacement is read through a comma-ok map lookup; non-emptiness of the matched word and of every replacement follows from the checked shape of the irregular pattern and of the constant rule tables, R3); R1 the rebuilt word is made of the match's own captures and the table value, never of a fixed offset of the whole input; R2 functions reachable from Pluralize/Singularize write no shared state except through sync.Map/sync.OnceValue, and the rule tables are only written by functions called (transitively) from init; determinism: no schedule-dependent order source in pkg/inflector. R3 pattern shape: two capture groups, first `.*`, a word boundary between them, second anchored at end of text, case-insensitive; every IrregularItem has a non-empty lower-case ASCII Word and a Replacement starting with the same letter. R4 the irregular attempt precedes the uninflected test (their word lists overlap, so the other order makes a word inflect differently on its own than behind a prefix); R3 also demands the dot-all flag, so a line break in the prefix is kept. R5 pass-through wrappers - every function between Pluralize/Singularize and the rule application returns its input, the next function's result or the cached thunk's result unchanged (no post-processing that looks at the whole input). NOT decided: linguistic correctness of the tables; that the irregular word is inflected exactly as on its own for every input (value level).",
 		Assumptions: append([]string{"*regexp.Regexp and sync.Map/sync.OnceValue are safe for concurrent use (documented)"}, commonAssumptions...),
 		Run:         runC20,
 	})
@@ -42,6 +42,7 @@ func runC20(p *core.Program, r *core.Report) {
 	c20R1(p, r, infl)
 	c20R4(p, r, infl)
 	c20R2(p, r)
+	c20R5(p, r, infl)
 	// determinism: no order source in the inflector packages
 	n := 0
 	for _, f := range p.Funcs() {
@@ -699,4 +700,76 @@ func c20R4(p *core.Program, r *core.Report, infl *core.Func) {
 	}
 	r.Check(ok, rule, infl, "the irregular last-word match is attempted before any other rule", irr.Node().Pos(), "the irregular FindStringSubmatch dominates every other regexp test and every return",
 		"`"+why+"` can run before the irregular match: a word that is both irregular and in the uninflected list (testes, graffiti) is then inflected differently on its own than when it follows a prefix")
+}
+
+// c20R5: pass-through wrappers. Only the rule application ((*Rule).inflected)
+// looks at the text, and it only rewrites the last word. Every function between
+// the exported API and it must hand the result on unchanged: a return is the
+// string parameter itself, the result of the next function of the chain, or the
+// call of a parameterless thunk (the cached sync.OnceValue). A wrapper that
+// post-processes the result decides on the whole input (its prefix included), so
+// a word is no longer inflected behind a prefix exactly as on its own.
+func c20R5(p *core.Program, r *core.Report, infl *core.Func) {
+	const rule = "R5"
+	r.Floor(rule, 3)
+	chain := map[*core.Func]bool{infl: true}
+	// climb the static callers inside the inflector packages
+	for changed := true; changed; {
+		changed = false
+		for _, cs := range allCalls(p) {
+			rel := core.RelPkg(cs.In.Pkg.PkgPath)
+			if rel != "pkg/inflector/internal" && rel != "pkg/inflector" || cs.In.Body == nil {
+				continue
+			}
+			callee := p.FuncOfObj(core.CalleeFunc(cs.In.Info(), cs.Call))
+			if callee != nil && chain[callee] && !chain[cs.In.Root()] {
+				chain[cs.In.Root()] = true
+				changed = true
+			}
+		}
+	}
+	n := 0
+	for w := range chain {
+		if w == infl {
+			continue
+		}
+		n++
+		for _, f := range w.AllFuncs() {
+			info := f.Info()
+			ast.Inspect(f.Body, func(nd ast.Node) bool {
+				if lit, ok := nd.(*ast.FuncLit); ok && lit != f.Lit {
+					return false
+				}
+				ret, ok := nd.(*ast.ReturnStmt)
+				if !ok || len(ret.Results) != 1 {
+					return true
+				}
+				if b, isB := info.TypeOf(ret.Results[0]).Underlying().(*types.Basic); !isB || b.Kind() != types.String {
+					return true
+				}
+				e, _ := core.Resolve(info, w.Body, ret.Results[0])
+				e = ast.Unparen(e)
+				good := false
+				how := ""
+				if v := core.VarOf(info, e); v != nil && isParamOf(w, v) {
+					good, how = true, "the input itself"
+				}
+				if c, isCall := e.(*ast.CallExpr); isCall {
+					if callee := p.FuncOfObj(core.CalleeFunc(info, c)); callee != nil && chain[callee] {
+						good, how = true, "result of "+callee.Name
+					} else if core.CalleeFunc(info, c) == nil && len(c.Args) == 0 {
+						if _, isConv := info.Types[c.Fun]; isConv && !info.Types[c.Fun].IsType() {
+							good, how = true, "call of the cached thunk"
+						}
+					}
+				}
+				r.Check(good, rule, w, "returns the rule's result unchanged: "+core.ExprStr(ret.Results[0]), ret.Pos(), how,
+					"this wrapper returns `"+core.ExprStr(e)+"`, which is neither its input, the next function's result nor the cached thunk: the inflected text is post-processed with knowledge of the whole input (e.g. re-cased when the input is upper case), so the last word is not inflected exactly as on its own")
+				return true
+			})
+		}
+	}
+	if n == 0 {
+		r.Anchor(rule, "wrappers between Pluralize/Singularize and (*Rule).inflected")
+	}
 }
